@@ -1,6 +1,8 @@
 import LdkModel.Driver.Util
 import LdkModel.Model.Forward
 import LdkModel.Model.ForwardClose
+import LdkModel.Model.ForwardMulti
+import LdkModel.Generated.Blinded
 namespace Ldk.Driver
 open Ldk Ldk.Forward
 
@@ -40,6 +42,11 @@ def c02hop : Drv where
     | ["hop", best, fl, ap, pp, scid, ia, ic, oa, oc, "phantom"] => ((), answer best fl ap pp scid ia ic oa oc .phantom)
     | ["hop", best, fl, ap, pp, scid, ia, ic, oa, oc, "intercept"] => ((), answer best fl ap pp scid ia ic oa oc .interceptScid)
     | ["hop", best, fl, ap, pp, scid, ia, ic, oa, oc, "unknown"] => ((), answer best fl ap pp scid ia ic oa oc .unknown)
+    -- `blinded <inAmt> <inCltv> <feeBase> <feeProp> <delta> <htlcMin> <maxCltv> <unknownFeatures>`: check_blinded_forward
+    | ["blinded", ia, ic, fb, fp, d, mn, mx, uf] =>
+      match BlindedGen.checkBlindedForward (nat! ia) (nat! ic) ⟨nat! d, nat! fp, nat! fb⟩ ⟨nat! mx, nat! mn⟩ (b uf) with
+      | some (a, c) => ((), s!"forward {a} {c}")
+      | none => ((), "reject blinded")
     | ["release", i, e, x, amt] =>
       match releaseIntercepted (.intercepted (nat! i) (nat! e) (nat! x)) (nat! amt) with
       | some (a, c) => ((), s!"offer {a} {c}")
@@ -69,6 +76,19 @@ def c02close : Drv where
         let okObs := v.consistent (b sent) (b cHas) (b bHas)
         if okDecision && okObs then ((), "ok")
         else ((), s!"MISMATCH allowed={allowed.map (fun d => if d then "drop" else "keep")} observation-consistent={okObs}")
+    -- `onchain <n> <accepted> <source:hashId:amountMsat,…>`: the downstream channel (n forwarded HTLCs) is on chain and the next hop's
+    -- preimage spends of these HTLC outputs (accepted = on ITS commitment) are seen by the forwarder's monitor before the manager
+    -- drains the events; answer: the sources the N-machine claims upstream (`chainSee`, `drainEvents`, then `sendFulfilUp` for all)
+    | ["onchain", n, acc, claims] =>
+      let cs : List FwdMulti.Claim := (claims.splitOn ",").filterMap fun t =>
+        match t.splitOn ":" with
+        | [k, h, a] => some ⟨b acc, nat! k, nat! h, nat! a, 1 + nat! h⟩
+        | _ => none
+      let ids := List.range (nat! n)
+      let m := FwdMulti.mrun (FwdMulti.minit (nat! n)) ([.chainSee cs, .drainEvents] ++ ids.map fun i => FwdMulti.MOp.sendFulfilUp i)
+      let got := ids.filter fun i => (m.hs i).up == .fulfilSent
+      let ok := FwdMulti.coherent m
+      ((), "claimed " ++ (if got.isEmpty then "-" else ",".intercalate (got.map toString)) ++ (if ok then "" else " INCOHERENT"))
     | _ => ((), "bad-op")
 
 structure FwdSt where
